@@ -4,7 +4,7 @@ VARIANTS_QUICK = [('HPs<3>', '_hp', (), 3), ('HPs<1>', '_hp1', (), 1), ('HPd<1>'
                   ('QSBR', '_qsbr', (), None), ('STAMP', '_stamp', (), None), ('LFRC', '_lfrc', ('XV_DEFAULT_DELETER',), None)]
 VARIANTS_ALL = VARIANTS_QUICK + [('HPs<2>', '_hp2', (), 2), ('HEs<1>', '_he1', (), 1), ('HEd<1>', '_hed', (), None), ('NEBR', '_nebr', (), None), ('DEBRA', '_debra', (), None),
                                  ('EBR0', '_ebr0', (), None), ('EBR100', '_ebr100', ('XV_FLUSH_FACTOR=30',), None), ('GEBR_lazy', '_glazy', (), None), ('GEBR_n2', '_gn2', (), None),
-                                 ('GEBR_aband', '_gab', (), None), ('GEBR_thresh', '_gth', (), None), ('LFRCtl', '_lfrctl', ('XV_DEFAULT_DELETER',), None)]
+                                 ('GEBR_aband', '_gab', (), None), ('GEBR_thresh', '_gth', (), None), ('GEBR_t0', '_gt0', (), None), ('LFRCtl', '_lfrctl', ('XV_DEFAULT_DELETER',), None)]
 def variants(tier):
     return VARIANTS_ALL if tier == 'thorough' else VARIANTS_QUICK
 def harnesses(tier, only=None):
